@@ -8,20 +8,7 @@ package agent
 // bodies of the other command handlers (subjects of C25/C26/C30) are replaced
 // by an effect recorder, and IPCClient.Send by a reply recorder.
 
-type vfSentRec struct {
-	hdr responseHeader
-	obj any
-}
-
-var (
-	vfSent    []vfSentRec
-	vfEffects []uint64
-)
-
-func vfStubSend(c *IPCClient, header *responseHeader, obj any) error {
-	vfSent = append(vfSent, vfSentRec{*header, obj})
-	return nil
-}
+var vfEffects []uint64
 
 func vfEffect2(i *AgentIPC, client *IPCClient, seq uint64) error {
 	vfEffects = append(vfEffects, seq)
